@@ -2385,6 +2385,13 @@ def run_impl_many(cases, procs=None):
 
 
 def check_cases(chk, cases, replay=False):
+    if any(c.get("rf") for c in cases):
+        # schedules of one atomic_write among the checks of a reloader (tie of ReloadFile.v): harness/c10_file.py
+        import c10_file
+        c10_file.check_cases(chk, [c for c in cases if c.get("rf")], replay)
+        cases = [c for c in cases if not c.get("rf")]
+        if not cases:
+            return
     i_outs = run_impl_many(cases)
     sel = [k for k, c in enumerate(cases) if not c.get("stress")]
     m_outs = model_run([cases[k] for k in sel], [i_outs[k] for k in sel])
@@ -2588,6 +2595,16 @@ def run(chk):
                 "custom sources hand out the Python object), its initial document and the engine's initial policy too with "
                 "some probability; family 'nonser': every history to length 3 (thorough: 4) over {new such document, check, "
                 "forced check, previous content again, check straddling a new one} for 7 (10) source configurations.  "
+                "Tie of the C10 x C16 composition (ReloadFile.v; harness/c10_file.py): schedules of ONE real "
+                "atomic_write(path, new) over an existing document - its file-system calls found at run time by a "
+                "writer-side tap, the writer stopped after any k of them (process death / OSError / BaseException at "
+                "call k), the pieces of the write reaching the temp file one by one (YAML documents whose prefixes are "
+                "loadable documents with fewer rules / shorter ids, JSON, same-size and different-size rewrites, "
+                "unparsable / schema-rejected old or new) - interleaved on one thread with check_and_reload() / "
+                "check_and_reload(force=True) of a real HotReloader(Guard, FilePolicySource) run BETWEEN two of the "
+                "writer's calls (whole, or split at the source calls so that a check straddles the rename and checks "
+                "overlap), include_mtime_in_etag and validate_schema on / off, followed by a tail of three checks; "
+                "non-trivial there = a check between two writer calls, a stopped writer, or a tail.  "
                 "non-trivial = at least one check and (a world event or a primed tag); distinct = distinct "
                 "(source configuration, reloader configuration, initial world, script)")
     chk.assumptions = [
@@ -2633,6 +2650,16 @@ def run(chk):
         "(coverage.probe_requests counts both)",
         "float arithmetic: inputs are dyadic, so the only roundings are `now + 0.2` and products with jitter_ratio 0.15; "
         "suppressed_until/backoff are compared with relative tolerance 1e-9",
+        "composition with C16 (ReloadFile.v): ReloadFile.run_sys is exported by no runner, so the schedules of "
+        "harness/c10_file.py are judged directly by the statements of c10_reload_never_sees_torn_policy, "
+        "c10_reload_failed_load_keeps_policy and c10_reload_converges_through_atomic_write (their conclusions are the "
+        "judged clauses), not compared with a model run; as in the theorems each etag() / load() is atomic with respect "
+        "to the directory (checks run between two file-system calls of the writer; inside a call: family 'incall') and "
+        "there is one writer; a dying writer is played in-process (after the k-th call nothing of the writer has any "
+        "effect: buffered data is dropped, cleanup calls are not performed); convergence is not judged where the "
+        "theorem's hypothesis fails - the new file has the old one's (size, mtime_ns) and that mtime lies within the "
+        "file system's clock readings taken around the write (coverage.reload_file_tie counts these); the in-place "
+        "rewrite that tears is a control (the application's misuse), recorded as control_in_place_tears, never a violation",
     ]
     for k_ in range(6):
         n_selfcheck(k_)
@@ -2656,9 +2683,12 @@ def run(chk):
                 break
     stress = gen_stress_cases(chk)
     check_cases(chk, stress)
+    import c10_file
+    n_rf = c10_file.run(chk)
     chk.exhaustive = True
     chk.extra["cases"] = {"corpus": len(corp), "sequential": len(cases), "overlapping_gated": len(conc),
-                          "overlapping_gated_apply_block_split": n_fine, "overlapping_free_running": len(stress)}
+                          "overlapping_gated_apply_block_split": n_fine, "overlapping_free_running": len(stress),
+                          "atomic_write_schedules_(c10_file)": n_rf}
     chk.extra["apply_atomicity"] = {"set_policy_calls_with_reloader_lock_held": NONATOMIC["with_lock"],
                                     "set_policy_calls_without_it_(pre-empted_there)": NONATOMIC["without_lock"],
                                     "lock_released_between_set_policy_and_bookkeeping_(pre-empted_there)": NONATOMIC["gap"],
